@@ -104,6 +104,7 @@ def startsDunder (w : String) : Bool := w.toList.take 2 == ['_', '_']
 /-- two keywords neither of which is a prefix of the other: reading one where the other stands fails outright -/
 def kwIncomparable : Q → Q → Bool
   | .kw k, .kw k' => !(k.toList.isPrefixOf k'.toList) && !(k'.toList.isPrefixOf k.toList)
+  | .lit x, .kw k' => !(x.toList.isPrefixOf k'.toList) && !(k'.toList.isPrefixOf x.toList)   -- `}` where `#include` stands
   | _, _ => false
 
 def ansNil (q : Q) : Ans :=
